@@ -329,3 +329,18 @@ Proof.
   vm_compute in E. inversion E; subst tr. clear E Hs.
   eexists _, _, _. split; [exact Hinv|]. split; [vm_compute; reflexivity|]. repeat split.
 Qed.
+
+(* every parser state reachable by calling Next satisfies the invariant that the per-call theorems assume *)
+Lemma steps_inv d : forall tr p, steps d p tr -> Forall (fun up => json_inv d (snd up)) tr.
+Proof.
+  induction tr as [|[u p'] tr IH]; intros p Hs; constructor.
+  - destruct Hs as [Hs _]. apply (step_ok_inv _ _ _ _ _ Hs).
+  - destruct Hs as [_ Hs]. apply (IH p'). exact Hs.
+Qed.
+
+Theorem json_inv_reachable_proof : forall d n tr, trace n (json_init d) = Some tr ->
+  json_inv d (json_init d) /\ Forall (fun up => json_inv d (snd up)) tr.
+Proof.
+  intros d n tr E. split; [apply json_inv_init|].
+  destruct (trace_steps_of d n _ tr (json_inv_init d) E) as [_ Hs]. apply (steps_inv d tr _ Hs).
+Qed.
